@@ -82,7 +82,10 @@ pub fn new_boxed<T: MaybeDynSized<Metadata = usize> + ?Sized>(
 /// Clones a [`MaybeDynSized`] by calling [`new_boxed`].
 #[must_use]
 pub fn clone_dyn<T: MaybeDynSized<Metadata = usize> + ?Sized>(tag: &T) -> Box<T> {
-    new_boxed(tag.header().clone(), &[tag.payload()])
+    // `payload()` also covers the padding up to the next alignment boundary;
+    // only the bytes the header accounts for belong to the tag.
+    let header = tag.header();
+    new_boxed(header.clone(), &[&tag.payload()[..header.payload_len()]])
 }
 
 #[cfg(test)]
